@@ -329,6 +329,18 @@ Theorem C14_clear_spec : forall s,
 Proof. exact clear_spec. Qed.
 Print Assumptions C14_clear_spec.
 
+(* seq.extend(seq) / seq += seq: the list is doubled, nothing is refused, index, rule and flags are kept *)
+Theorem C14_extend_self_spec : forall s,
+  (forall n, Permutation (lut s n) (filter (has n) (items s))) ->
+  Forall (fun x => init_check (is_root s) (is_sr s) x = None) (items s) ->
+  snd (extend s (items s)) = None /\ items (fst (extend s (items s))) = items s ++ items s /\
+  (forall n, Permutation (lut (fst (extend s (items s))) n) (filter (has n) (items (fst (extend s (items s)))))) /\
+  Forall (fun x => init_check (is_root (fst (extend s (items s)))) (is_sr (fst (extend s (items s)))) x = None)
+         (items (fst (extend s (items s)))) /\
+  is_root (fst (extend s (items s))) = is_root s /\ is_sr (fst (extend s (items s))) = is_sr s.
+Proof. exact extend_self_spec. Qed.
+Print Assumptions C14_extend_self_spec.
+
 Theorem C14_count_spec : forall s x, count s x = Z.of_nat (count_occ item_eq_dec (items s) x).
 Proof. exact count_spec. Qed.
 Print Assumptions C14_count_spec.
@@ -338,7 +350,7 @@ Theorem C14_xstep_refused_unchanged : forall s o e,
   (forall n, Permutation (lut s n) (filter (has n) (items s))) -> snd (xstep s o) = Err e ->
   match o with
   | Op (Extend _) | Op (IAdd _) => True
-  | Reverse | Clear => True
+  | Reverse | Clear | ExtendSelf | IAddSelf => True
   | _ => fst (xstep s o) = s
   end.
 Proof. exact xstep_err_unchanged. Qed.
@@ -461,8 +473,9 @@ Example C14_refinement_example :
   let a := Item true 0 1 false false 0 in let b := Item true 1 1 false true 1 in
   let bad := Item true 2 0 false false 0 in
   fold_left (xref_step false true)
-    [Op (Extend [b; bad; a]); Op (SetSlice None None (Some (-1)) [a; b; a]); Reverse; Pop (-1); Remove a; Op (DelInt 5)]
-    [a; a] = [b].
+    [Op (Extend [b; bad; a]); Op (SetSlice None None (Some (-1)) [a; b; a]); Reverse; Pop (-1); Remove a; Op (DelInt 5);
+     ExtendSelf; IAddSelf]
+    [a; a] = [b; b; b; b].
 Proof. vm_compute. reflexivity. Qed.
 Print Assumptions C14_refinement_example.
 
